@@ -120,6 +120,9 @@ def run_once(sc, schedule, seed=None, line_preempt=None, back=False):
                         if sc.get("recv_api") == "recv_data":
                             op, data = ws.recv_data()
                             v = data.decode("utf-8") if op == 1 else bytes(data)
+                        elif sc.get("recv_api") == "next":
+                            # the iteration API (next(ws), "for message in ws") is a way of calling recv()
+                            v = next(ws) if i % 2 == 0 else ws.next()
                         else:
                             v = ws.recv()
                     except Exception as e:     # noqa
@@ -238,6 +241,11 @@ def scenarios(rng, tier):
     two = wire.sframe(1, b"m1") + wire.sframe(1, b"m2") + wire.sframe(2, b"\x01", 0) + wire.sframe(0, b"\x02", 1)
     scs.append(dict(name="recv2_lines", receivers=2, stream=two, recv_calls=3, read_cap=None, senders=[], bound=0, max_runs=1,
                     line_level=3 if tier == "quick" else 1))
+    scs.append(dict(name="next2_lines", receivers=2, stream=two, recv_calls=3, read_cap=None, senders=[], bound=0, max_runs=1, recv_api="next",
+                    line_level=2 if tier == "quick" else 1))
+    for rc in (None, 2):
+        scs.append(dict(name="next2_cap%s" % rc, receivers=2, stream=stream, recv_calls=3, read_cap=rc, senders=[], recv_api="next",
+                        bound=2, max_runs=150 if tier == "quick" else 3000))
     scs.append(dict(name="send2_lines", senders=[b"\x01", b"\x02\x02"], write_caps=[3], bound=0, max_runs=1, line_level=1, back=True))
     # a transport without timeout (blocking mode as far as gettimeout() tells) that offers sendall()
     scs.append(dict(name="send2_notimeout", senders=[b"\x01" * 9, b"\x02\x02"], write_caps=[4], sock_timeout=None, bound=1, max_runs=80 if tier == "quick" else 800))
